@@ -298,11 +298,39 @@ class Repo:
         if isinstance(expr, (ast.Tuple, ast.List)):
             vals = []
             for e in expr.elts:
+                if isinstance(e, ast.Starred):
+                    # [*A, *range(n)]: splice a foldable sequence / the keys of a foldable dict
+                    ok, v = self.const(module, e.value, _depth + 1)
+                    if not ok or not isinstance(v, (list, tuple, dict, range)):
+                        return False, None
+                    vals.extend(list(v))
+                    continue
                 ok, v = self.const(module, e, _depth + 1)
                 if not ok:
                     return False, None
                 vals.append(v)
             return True, (tuple(vals) if isinstance(expr, ast.Tuple) else vals)
+        if isinstance(expr, ast.Call) and isinstance(expr.func, ast.Name) \
+                and expr.func.id in ("range", "list", "tuple", "sorted", "len") \
+                and not expr.keywords and 1 <= len(expr.args) <= 3:
+            args = []
+            for a in expr.args:
+                ok, v = self.const(module, a, _depth + 1)
+                if not ok:
+                    return False, None
+                args.append(v)
+            try:
+                if expr.func.id == "range" and all(isinstance(a, int) for a in args) \
+                        and len(range(*args)) <= 64:
+                    return True, list(range(*args))
+                if expr.func.id in ("list", "tuple", "sorted", "len") and len(args) == 1 \
+                        and isinstance(args[0], (list, tuple, dict)):
+                    seq = list(args[0])
+                    return True, {"list": seq, "tuple": tuple(seq), "sorted": sorted(seq),
+                                  "len": len(seq)}[expr.func.id]
+            except Exception:
+                return False, None
+            return False, None
         if isinstance(expr, ast.Dict):
             d = {}
             for k, v in zip(expr.keys, expr.values):
